@@ -69,6 +69,8 @@ type Unit struct {
 	specBusy map[string]string
 	specRec  map[string]bool
 	specN    int
+	specPure map[string]string
+	heapReads int
 }
 
 type InputDesc struct {
@@ -83,7 +85,7 @@ func newUnit(eng *Engine, fn *ssa.Function, fc *FuncContract, name string) *Unit
 		te:       &TypeEnc{sc: sc, structSorts: map[string]bool{}},
 		rsorts:   map[string]string{}, counters: map[string]int{}, strs: map[string]Term{}, tags: map[string]int{},
 		usedExterns: map[string]bool{}, inlined: map[string]bool{}, havocked: map[string]bool{}, bvMode: true,
-		specDefs: map[string]string{}, specBusy: map[string]string{}, specRec: map[string]bool{}}
+		specDefs: map[string]string{}, specBusy: map[string]string{}, specRec: map[string]bool{}, specPure: map[string]string{}}
 	u.wm0 = sc.declare("wm@0", SInt)
 	u.assume(tTrue, mk(SBool, ">", u.wm0, intConst(0)))
 	return u
@@ -145,6 +147,7 @@ func (u *Unit) regionSort(region, sortName string) {
 }
 
 func (u *Unit) heapGet(h Heap, region string) Term {
+	u.heapReads++
 	if t, ok := h[region]; ok {
 		return t
 	}
